@@ -274,6 +274,7 @@ class MultiTanProcessor(object):
 
     def _tile_parallel(self, pio, cli_progress, parallel, **kwargs):
         import multiprocessing as mp
+        from .par_util import any_worker_failed
 
         # Start up the workers
 
@@ -304,6 +305,9 @@ class MultiTanProcessor(object):
 
         for w in workers:
             w.join()
+
+        if any_worker_failed(workers):
+            raise Exception("a worker process failed; see the traceback printed above")
 
 
 def _mp_tile_worker(queue, done_event, pio, _kwargs):
